@@ -10,7 +10,7 @@ use crate::env::env_flag;
 use crate::graph;
 use crate::graph::{Dimension, Graph, Node, NodeId, RunError, TypedConstant};
 use crate::operator::{OutputType, OutputTypesContext};
-use crate::value::ValueType;
+use crate::value::{DataType, ValueType};
 
 pub use rten_shape_inference::{
     BinaryOp, Constant, InferShapes, InferShapesContext, InferShapesError, ReductionOp, SymExpr,
@@ -300,6 +300,26 @@ pub fn infer_shapes(graph: &Graph, opts: InferShapeOptions) -> Result<InferResul
                                 return Err(InferError::ShapeInferenceIncomplete(op_info()));
                             }
                         }
+
+                        // Symbolic values model integer arithmetic. A float output
+                        // can only obtain values from float constants whose elements
+                        // happen to be integers, and operators such as `Div` do not
+                        // map those to the integer result (3.0 / 4.0 is not 0), nor
+                        // can `-0.0` be represented. Keep only the shape of float
+                        // outputs; constant propagation computes their values exactly.
+                        let is_float = matches!(
+                            types.get(out_id),
+                            Some(ValueType::Tensor(DataType::Float))
+                        );
+                        let float_dims: Option<Vec<SymExpr>> = if is_float && out_shape.values().is_some() {
+                            out_shape.shape().map(|dims| dims.collect())
+                        } else {
+                            None
+                        };
+                        let out_shape = match float_dims {
+                            Some(dims) => SymTensor::from_shape(dims),
+                            None => out_shape,
+                        };
 
                         // Handle excessively complex symbolic expressions in the shape.
                         //
